@@ -49,7 +49,7 @@ func (g *gstate) chain() []diskInfo {
 			break
 		}
 		d := disks[n]
-		out = append(out, diskInfo{strings.TrimSuffix(strings.TrimPrefix(n, "volume-snap-"), ".img"), d.UserCreated, d.Removed})
+		out = append(out, diskInfo{g.im.Unalias(strings.TrimSuffix(strings.TrimPrefix(n, "volume-snap-"), ".img")), d.UserCreated, d.Removed})
 	}
 	return out
 }
@@ -166,7 +166,7 @@ func (g *gstate) applyOne(rng *rand.Rand) bool {
 
 func weights(profile string) map[string]int {
 	w := map[string]int{"write": 34, "read": 8, "snap": 12, "delete": 7, "invalid": 3, "revert": 3,
-		"reopen": 6, "reload": 2, "closeopen": 1, "resize": 2, "punch": 4, "apply": 12, "drop": 1, "mode": 2, "setrev": 1, "ckpt": 1, "markuser": 2, "cw": 0}
+		"reopen": 6, "reload": 2, "closeopen": 1, "resize": 2, "punch": 4, "apply": 12, "drop": 1, "mode": 2, "setrev": 1, "ckpt": 1, "markuser": 2, "cw": 0, "rebuild": 0}
 	switch profile {
 	case "io":
 		w["write"], w["read"], w["delete"], w["invalid"] = 50, 15, 4, 0
@@ -178,6 +178,8 @@ func weights(profile string) map[string]int {
 		w["invalid"], w["snap"], w["revert"], w["delete"], w["write"], w["ckpt"] = 15, 14, 8, 10, 15, 4
 	case "resize":
 		w["resize"], w["reopen"] = 12, 8
+	case "rebuild":
+		w["rebuild"], w["snap"], w["write"], w["apply"], w["punch"], w["reopen"], w["delete"] = 14, 14, 34, 10, 5, 4, 5
 	case "modes":
 		w["mode"], w["closeopen"], w["reopen"], w["invalid"], w["setrev"], w["delete"], w["write"] = 12, 8, 8, 8, 5, 6, 30
 	case "counter":
@@ -187,7 +189,7 @@ func weights(profile string) map[string]int {
 }
 
 func pick(rng *rand.Rand, w map[string]int) string {
-	keys := []string{"write", "read", "snap", "delete", "invalid", "revert", "reopen", "reload", "closeopen", "resize", "punch", "apply", "drop", "mode", "setrev", "ckpt", "markuser", "cw"}
+	keys := []string{"write", "read", "snap", "delete", "invalid", "revert", "reopen", "reload", "closeopen", "resize", "punch", "apply", "drop", "mode", "setrev", "ckpt", "markuser", "cw", "rebuild"}
 	tot := 0
 	for _, k := range keys {
 		tot += w[k]
@@ -314,6 +316,43 @@ func generate(rng *rand.Rand, steps int, profile string) ([]string, []string, ma
 			g.tagN++
 			g.do(fmt.Sprintf("cw %d %d", 100+rng.Intn(300), g.tagN))
 			g.feat["concurrent-writes"] = true
+		case "rebuild":
+			// a second replica is added and rebuilt from this one while writes continue; afterwards the
+			// rebuilt replica is the one under test
+			if g.mode != "RW" || g.im.Rebuilding() {
+				continue
+			}
+			g.snapN++
+			g.do(fmt.Sprintf("rbbegin r%d", g.snapN))
+			for rng.Intn(3) != 0 {
+				g.write(rng)
+			}
+			g.do("rbreload")
+			g.do("holes")
+			g.do("loc")
+			for rng.Intn(2) == 0 {
+				g.write(rng)
+				if rng.Intn(3) == 0 {
+					g.do(fmt.Sprintf("r %d %d", 0, 1+rng.Intn(g.nb()*8)))
+				}
+			}
+			g.do("lunmap")
+			g.do("holes")
+			g.do("loc")
+			for rng.Intn(3) == 0 {
+				g.write(rng)
+			}
+			g.do("rbpromote")
+			if rng.Intn(2) == 0 {
+				g.do("full")
+			}
+			g.do("meta")
+			// the controller goes away (closing every replica); the rebuilt replica is opened again
+			g.do("rbend")
+			g.do("open p")
+			g.do("mode RW")
+			g.feat["rebuild"] = true
+			g.punchd = true
 		case "markuser":
 			// the user deletes a user-created snapshot: only marks it; the cleaner may take it later
 			if g.mode != "RW" {
@@ -415,6 +454,16 @@ func generate(rng *rand.Rand, steps int, profile string) ([]string, []string, ma
 		}
 		g.observe(rng, pFull, pImg)
 	}
+	if g.im.Rebuilding() { // an unfinished rebuild: finish it
+		if !g.im.Swapped() {
+			g.do("rbreload")
+			g.do("lunmap")
+		}
+		g.do("rbpromote")
+		g.do("rbend")
+		g.do("open p")
+		g.do("mode RW")
+	}
 	if g.im.S.Replica() != nil {
 		g.do("full")
 		for _, d := range g.chain() {
@@ -427,6 +476,7 @@ func generate(rng *rand.Rand, steps int, profile string) ([]string, []string, ma
 		g.do("meta")
 		g.im.S.Close()
 	}
+	g.im.Cleanup()
 	return g.lines, g.outs, g.feat
 }
 
